@@ -60,7 +60,20 @@ CONTAINERS = {
     "prefix_str": ("&str", "s", lambda vs: "{ const T: &str = %s; [%s] }" % (rust_str(max(vs, key=len)), ", ".join("&T[..%d]" % len(v.encode("utf-8")) for v in vs))),
     # items whose rendering is the empty string: several rows under the same (empty) label
     "blank": ("support::Blank", "e", lambda vs: "[%s]" % ", ".join("support::Blank(%d)" % v for v in vs)),
+    # the label rule "ToString rendering, Debug only as fallback": the values are the expected labels
+    # Display + a different Debug; ToString implemented by hand (no Display) + a different Debug; Debug only
+    "disp_dbg": ("support::DispDbg", "s", lambda vs: "[%s]" % ", ".join("support::DispDbg(%d)" % _num(v) for v in vs)),
+    "own_tostring": ("support::OwnStr", "s", lambda vs: "[%s]" % ", ".join("support::OwnStr(%d)" % _num(v) for v in vs)),
+    "dbg_only": ("support::DbgOnly", "s", lambda vs: "[%s]" % ", ".join("support::DbgOnly(%d)" % _num(v) for v in vs)),
 }
+LABEL_FORMS = {"disp_dbg": "disp%d", "own_tostring": "own%d", "dbg_only": "DbgOnly(%d)"}
+
+
+def _num(label):
+    import re
+    return int(re.search(r"-?\d+", label).group(0))
+
+
 PREFIX_TEXT = "abc::def"
 
 
@@ -379,6 +392,20 @@ pub mod support {
     #[derive(Clone, Copy, PartialEq)] pub struct Blank(pub i64);
     impl std::fmt::Display for Blank { fn fmt(&self, _: &mut std::fmt::Formatter<'_>) -> std::fmt::Result { Ok(()) } }
     impl Render for Blank { fn render(&self) -> String { format!("e{}", self.0) } }
+    // Display and a different Debug: the label is the Display (= ToString) rendering
+    #[derive(Clone, Copy, PartialEq)] pub struct DispDbg(pub i64);
+    impl std::fmt::Display for DispDbg { fn fmt(&self, f: &mut std::fmt::Formatter<'_>) -> std::fmt::Result { write!(f, "disp{}", self.0) } }
+    impl std::fmt::Debug for DispDbg { fn fmt(&self, f: &mut std::fmt::Formatter<'_>) -> std::fmt::Result { write!(f, "DEBUG-OF-DISP<{}>", self.0) } }
+    impl Render for DispDbg { fn render(&self) -> String { format!("s{}", enc(&format!("disp{}", self.0))) } }
+    // ToString implemented by hand (no Display) and a different Debug: the label is the ToString rendering
+    #[derive(Clone, Copy, PartialEq)] pub struct OwnStr(pub i64);
+    #[allow(clippy::to_string_trait_impl)]
+    impl ToString for OwnStr { fn to_string(&self) -> String { format!("own{}", self.0) } }
+    impl std::fmt::Debug for OwnStr { fn fmt(&self, f: &mut std::fmt::Formatter<'_>) -> std::fmt::Result { write!(f, "DEBUG-OF-OWN<{}>", self.0) } }
+    impl Render for OwnStr { fn render(&self) -> String { format!("s{}", enc(&format!("own{}", self.0))) } }
+    // Debug only: the label is the Debug rendering
+    #[derive(Clone, Copy, PartialEq, Debug)] pub struct DbgOnly(pub i64);
+    impl Render for DbgOnly { fn render(&self) -> String { format!("s{}", enc(&format!("DbgOnly({})", self.0))) } }
     impl Render for char { fn render(&self) -> String { let mut b = [0u8; 4]; format!("s{}", enc(self.encode_utf8(&mut b))) } }
     impl Render for &str { fn render(&self) -> String { format!("s{}", enc(self)) } }
     impl Render for &String { fn render(&self) -> String { format!("s{}", enc(self)) } }
@@ -594,6 +621,8 @@ def rand_args(rng, max_len=5, kinds=None):
         vals = [PREFIX_TEXT[:rng.randrange(0, len(PREFIX_TEXT) + 1)] for _ in range(n)]
     elif kind == "blank":
         vals = [rng.randrange(-5, 50) for _ in range(n)]
+    elif kind in LABEL_FORMS:
+        vals = [LABEL_FORMS[kind] % rng.choice([0, 1, 2, 10, 9, -3, 100]) for _ in range(n)]
     elif vk == "i":
         vals = [rng.choice([0, 1, -1, 2, 10, 9, 100, -100, 2**63 - 1, -(2**63) + 1, 42]) for _ in range(n)]
     elif kind == "arr_char":
